@@ -50,6 +50,14 @@ def gen_cases(seed, tier):
             kk_ = int(rng.choice([0, 0, 2]))
             dom = {"spec": sp, "rows": gen_geo.param_rows(rng, kk_), "k": kk_,
                    "info": {"kind": "prim", "dim": 3, "dep": False, "relations": ["user_tol"], "desc": "H~tol"}}
+        elif i % 25 == 8:
+            # operands touching from outside in one point (every seed reaches the contact-point monitor)
+            for _ in range(400):
+                dom = gen_geo.gen_domain(rng, max_depth=1, allow=("bool",), dep=False, dim=int(rng.choice([2, 2, 3])),
+                                         k=int(rng.choice([0, 0, 2])))
+                if any(r.startswith("contact@") for r in dom["info"]["relations"]) and "prim" in dom["spec"].get("a", {}) \
+                        and "prim" in dom["spec"].get("b", {}):
+                    break
         elif i % 11 == 5:
             dom = gen_geo.flip_parallelogram(rng, kinds=("parallelogram", "triangle"))
         else:
@@ -340,6 +348,32 @@ def run_case(case):
                                         % (info["desc"], int(rej.sum()), int((okb & ~amb).sum()), kind, O[i].tolist(),
                                            {pn: v[i].tolist() for pn, v in envo.items()}), sampler=kind,
                                         frac=round(float(rej.sum() / max(1, (okb & ~amb).sum())), 2), **mech))
+    # ---- operands touching from outside in one point (generated relation "tangent"): the contact point belongs to both
+    #      closed operands and every neighbourhood of it leaves the union, so it is a boundary point of the union
+    spec = case["spec"]
+    if any(r.startswith("contact@") for r in info.get("relations", [])) and spec.get("op") == "union" \
+            and "prim" in spec["a"] and "prim" in spec["b"] and Db is not None and not info.get("scale"):
+        balls = [o for o in (spec["a"], spec["b"]) if o["prim"] in ("circle", "sphere")]
+        other = spec["b"] if balls[0] is spec["a"] else spec["a"]
+        c0, r0 = np.asarray(balls[0]["center"], float), float(balls[0]["radius"])
+        if other["prim"] in ("circle", "sphere"):
+            tgt = np.asarray(other["center"], float)
+        else:
+            o_, c1_, c2_ = (np.asarray(other[q], float) for q in ("origin", "c1", "c2"))
+            lo_, hi_ = np.minimum(np.minimum(o_, c1_), c2_), np.maximum(np.maximum(o_, c1_), c2_ + c1_ - o_)
+            tgt = np.clip(c0, lo_, hi_)
+        cp = (c0 + r0 * (tgt - c0) / np.linalg.norm(tgt - c0))[None]
+        Pc, Qc = _points(names_dims, np.repeat(cp, kk, 0), {pn: env[pn] for pn in env}, True)
+        mech = dict(mech0, target="boundary", relation="tangent")
+        for Dq, nm in ((Db, "boundary"), (D, "closed set")):
+            a_ = _answer(Dq, Pc, Qc, res, mech, "contact point of %s" % info["desc"])
+            if a_ is None:
+                continue
+            res["judged"] += 1
+            res["counters"]["contact_points_judged"] = res["counters"].get("contact_points_judged", 0) + 1
+            if not a_.all():
+                res["viol"].append(viol("contact_point_rejected", "%s: the point %s where the two operands touch from outside is not accepted "
+                                        "by the %s of the union" % (info["desc"], cp[0].tolist(), nm), part=nm, **mech))
     res["nontrivial"] = res["judged"] >= 20
     return res
 
